@@ -77,6 +77,10 @@ func (w *Worker) genC02(rc *simapi.RunConfig) {
 	sr := simrt.NewRand(rc.RunSeed, "sched")
 	rc.Variants = append(rc.Variants,
 		simapi.Variant{MapPolicy: simrt.MapReversed, Sched: &simrt.SchedConfig{Strategy: simrt.StratPrio, PrioRule: simrt.PrioReverse}})
+	// the same workload over the twin corpus: files registered in another order
+	tw := serialVariant()
+	tw.Twin = true
+	rc.Variants = append(rc.Variants, tw)
 	nv := 2
 	if rc.Tier == "thorough" {
 		nv = 4
@@ -167,8 +171,8 @@ func (w *Worker) runC02(rc *simapi.RunConfig) *simapi.RunResult {
 			res.Violations = append(res.Violations, simapi.Violation{
 				Class:    class,
 				Identity: fmt.Sprintf("%s:%s", class, checker),
-				Detail: fmt.Sprintf("variant %d (map policy %d, strategy %v) differs from E(w, canonical, serial) at record %d: reference %q, got %q",
-					vi, v.MapPolicy, schedName(v.Sched), k, short(a, 300), short(b, 300)),
+				Detail: fmt.Sprintf("variant %d (map policy %d, strategy %v%s) differs from E(w, canonical, serial) at record %d: reference %q, got %q",
+					vi, v.MapPolicy, schedName(v.Sched), twinNote(v), k, short(a, 300), short(b, 300)),
 			})
 			break
 		}
@@ -176,6 +180,13 @@ func (w *Worker) runC02(rc *simapi.RunConfig) *simapi.RunResult {
 	res.Digest = hashStrings(digest...)
 	res.DecisionID = hashStrings(decision...)
 	return res
+}
+
+func twinNote(v *simapi.Variant) string {
+	if v.Twin {
+		return ", over the twin corpus: same files registered in the file set in another order"
+	}
+	return ""
 }
 
 func sortedCopy(a []string) []string {
